@@ -37,6 +37,11 @@ CHECKS = {
          "Trusted: Rust's str::parse::<f64>; the strict JSON parser and the ES serialisation model in harness/src/props/c16/ (the latter cross-checked against node on every graph case); serde_json in the harness only for well-formedness. Outside the domain: lone-surrogate escapes, number tokens beyond the double range, revivers/replacers, layout of indented output, key order. Open known findings exclude by construction: JSON.parse of texts nested >= 128 levels, user toJSON methods and getters in JSON.stringify.",
          "property-based random generation (proptest choice tape) + exhaustive Unicode sweep against the generator's model, an independent parser and a reference engine",
          "§10 C16"),
+ "C02": ("exploration",
+         "Seeded random programs from the typed grammar generator (full profile: allocation-heavy natives, callbacks, getters, generators, classes, Map/Set, destructuring, spread) are each run with collection disabled and under 11 collection schedules (GC thresholds 1,2,3,5,7,100; host-forced collect() after every 1st,2nd,3rd,7th,31st step) plus a host read-back variant (the host holds the completion value across allocations, a second program and forced collections, then serialises it). Oracle: identical completion and console output in every run, and zero stale-handle events from the Gc generation stamp (hook H1), which detects use of a swept or re-used slot even when the value read happens to look right. Sampled, not exhaustive.",
+         "Trusted: the run with collection disabled as reference (same engine, so evaluation defects cancel); hook H1 (generation stamp in Gc/GcBox). A missing guard is only exposed if an allocation falls inside the unguarded window of a generated shape.",
+         "property-based random program generation (proptest choice tape) + metamorphic comparison across GC schedules + execution monitor",
+         "§10 C02"),
 }
 
 NOT_YET = {}
